@@ -84,7 +84,14 @@ impl BufferWindow {
     pub fn fill_buf(&mut self, mut reader: impl Read) -> Result<usize, BufferError> {
         let carry_over = self.window_len();
         if carry_over >= self.buf.len() {
-            return Ok(0);
+            // A window over a slice has no buffer to fill, so it is at the end
+            // of its data. Otherwise the unconsumed data occupies the entire
+            // buffer and there is no room to read into.
+            return if self.buf.is_empty() {
+                Ok(0)
+            } else {
+                Err(BufferError::BufferFull)
+            };
         }
 
         // Copy over the unconsumed bytes to the start of the buffer
